@@ -33,6 +33,10 @@ P = {
          'Theorems for all graphs (incl. shared instances), all skip outcome tables, all roots: the registered list is exactly the walked modules that are leaves, linear or conv2d (linear first), with all parameters requiring gradients and neither qualified name nor class name matched; every module instance occurs at most once in the walk and is registered at most once; exactly the registered modules get one forward-pre and one backward hook. Tie: random torch.nn trees (containers, shared instances, subclasses, unsupported/parameter-free/frozen leaves, None children, bare-leaf root, GPT-NeoX class-name variant) x random pattern lists; named_modules order, registered (name, module, kind) and hook counts of every module compared with the extracted model; independent oracle per the property text.',
          'Coq kernel; extraction + driver; re.search outcomes are inputs (regex engine is an oracle); completeness of the walk w.r.t. reachability is not proved (compared with torch on every tree); DeepSpeed stand-in for the GPT-NeoX import. Closed under the global context.',
          'DESIGN.md §4 C16'),
+ 'C07': (True, 'Coq proof over the reals of the clip scale (range, bound, tightness, zero case, min-sqrt formula, vg_sum = lr^2 * sum of inner products, weight|bias inner split, single scalar) + correspondence of the factor applied by step() with the IEEE-double reading of the extracted terms',
+         'Theorems over R for all layers, shapes and values, 0 < kl: vg_sum = lr^2 * sum over layers of <V, D> (weight and bias parts), nu = min(1, sqrt(kl/|s|)) for s <> 0 and 1 for s = 0, 0 < nu <= 1, nu^2 |s| <= kl with equality when |s| > kl, final gradients = nu * V entrywise with one scalar, kl_clip=None yields no scale. Tie: worlds 1-4 under simdist, lr and kl_clip constant / callable / None, clipping active / inactive, 1-3 steps: the unclipped V comes from a twin run with kl_clip=None on identical state; the common ratio (computed jointly over layers, entries and ranks) must be one scalar and equal the extracted nu(vg_sum) evaluated in doubles on (V, D, lr, kl); independent float64 oracle for the inequality and the formula; constructor accepts None/positive/callable and rejects non-positive constants.',
+         'Coq kernel; real-number axioms of the standard library; extraction + driver (IEEE doubles); simdist; sqrt and float32 accumulation compared with tolerance 2e-5; that one nu is shared by all ranks is checked, not proved from a machine model.',
+         'DESIGN.md §4 C07'),
  'C08': (True, 'Coq proof of the bucket state machine (conservation by occurrence counting, capacity/key/dtype invariants over arbitrary operation sequences) and of value equivalence (slice of the reduced fused buffer = reduction of the tensor) + correspondence of TorchDistributedCommunicator under simdist',
          'Theorems for all operation sequences, capacities and group mixtures: every added tensor is pending or in exactly one emitted fused allreduce (with multiplicity), nothing is pending and no bucket open after a flush, every fused allreduce is non-empty, holds tensors of one group key and one dtype and is within the capacity unless it is a single tensor; for any rank set and any values of the advertised lengths the slice [offset, offset+numel) of the elementwise-reduced fused buffer equals the elementwise reduction of that tensor. Tie: random tensor sequences over world / halves / two distinct equal-size groups sharing a rank / singleton, 5 capacity regimes, average and symmetric flags, mixed dtypes, several fill/flush cycles, 4 schedule policies: every future compared bit-for-bit (value, shape, dtype) with the unbucketed allreduce and with exact integer sums; simdist log of fused allreduces (group, element count, order) compared with the extracted model.',
          'Coq kernel; extraction + driver; simdist; flatten/unflatten modelled as concatenation/slicing; packing by C14; int(cap_mb*1e6) read from the communicator. Model mirrors the code after fixes D4 and D8. Closed under the global context.',
